@@ -848,8 +848,12 @@ impl<R: Clone + 'static + crate::MemoryEstimator> GlobalCache<R> {
     /// assert_eq!(cache.get("key2"), None);
     /// ```
     pub fn clear(&self) {
+        // Both structures are emptied inside one order-queue critical section (queue lock
+        // first, then the map, as everywhere else): a concurrent insert can then never end
+        // up stored in the map but missing from the queue.
+        let mut order = self.order.lock();
         self.map.write().clear();
-        self.order.lock().clear();
+        order.clear();
     }
 }
 
